@@ -112,7 +112,9 @@ def strategy_(draw, tier):
     if draw(st.booleans()):
         size = sum(len(l) + 1 for l in lines)
         comp = {"cuts": sorted(set(draw(st.lists(st.integers(1, max(1, size - 1)), max_size=3)))), "empty": False}
-    return {"gaf": lines, "tsv": "\n".join([hdr] + body) + "\n", "bgzf": comp,
+    # whatshap writes a '#readname ...' header line; a table without it (cut, filtered, concatenated) is the same table
+    head_ = [hdr] if draw(st.integers(0, 3)) else []
+    return {"gaf": lines, "tsv": "".join(r_ + "\n" for r_ in head_ + body), "bgzf": comp,
             "via": draw(st.sampled_from(["api", "api", "cli", "cli_stdout"]))}
 
 
@@ -128,8 +130,8 @@ def run_case(case):
 
     lines = case["gaf"]
     table = {}
-    for row in case["tsv"].split("\n")[1:]:
-        if row:
+    for row in case["tsv"].split("\n"):
+        if row and not row.startswith("#readname\t"):
             f = row.split("\t")
             table.setdefault(f[0], []).append((f[1], f[2], f[3]))
     with core.workdir() as d:
